@@ -23,7 +23,8 @@ func init() {
 	register(core.Plan{
 		Property: "C06", Level: "exploration",
 		Parts: func(tier string) []core.Part {
-			return []core.Part{{Name: "conversations", Bin: "plain", Batches: c06Batches(tier), Parallel: 2, TimeoutS: 900}}
+			return []core.Part{{Name: "conversations", Bin: "plain", Batches: c06Batches(tier), Parallel: 2, TimeoutS: 900},
+				{Name: "stalled-then-resumed", Bin: "plain", Batches: 1, Parallel: 1, TimeoutS: 180}}
 		},
 		Assumptions: []string{
 			"R-reply (DESIGN Appendix C / internal/ref/reply.go) is the expected automatic reply per request; default server configuration",
@@ -31,7 +32,7 @@ func init() {
 			"a sub-packaged request counts once, when complete; its reply may echo the serial of any packet of the transfer; the client waits for that reply before continuing so the order is fully determined",
 			"terminal-sent platform-originated IDs (0x8xxx/0x9xxx) are outside the property's quantifier and not generated here",
 		},
-	}, map[string]Worker{"conversations": c06Worker})
+	}, map[string]Worker{"conversations": c06Worker, "stalled-then-resumed": c06Stalled})
 }
 
 func c06Batches(tier string) int {
